@@ -3,6 +3,7 @@
 Every schedule of 2 real threads (3 in one thorough harness) up to a preemption bound is explored by the
 stateless scheduler of mc/explore/threadsched.py (iterative context bounding).
   Layer A: every call of a function defined under xmlschema/ is a scheduling point, preemption bound 1.
+  Layer L: the interface plus every SOURCE LINE of the small functions that read-modify-write shared caches.
   Layer E: the interface plus every call from library code into third-party code (XPath evaluation in elementpath).
   Layer C: (build race) the interface plus every call made directly from the body of XsdGlobals.build().
   Layer B: points restricted to the shared-state interface (caches, cached properties, build, staged maps,
@@ -27,7 +28,7 @@ RULE = ('harnesses H1 build race, H2 two validations of xsi:type-in-key document
         'harness every schedule of its threads with at most B preemptions at the selected scheduling points; distinct = distinct schedules '
         '(choice sequences); non-trivial = the schedule contains at least one preemption')
 ASSUMPTIONS = [
-    'a scheduling point is the call event of a Python function (sys.settrace); preemption inside C code or between two bytecodes of one function body without a call is not modelled',
+    'a scheduling point is the call event of a Python function (sys.settrace); preemption inside C code or between two bytecodes of one function body without a call is not modelled, except inside the functions of layer L (shared-cache read-modify-write functions) where every source line is a point',
     'the library locks (SchemaCache, XsdGlobals build lock, lazy resource lock, XMLResource context lock) are replaced by cooperative locks with the same interface',
     'free-threaded (no-GIL) builds are out of scope; a free-running stress pass is not part of the decision (sampling)',
     'the single-threaded baseline of each call is its result on a fresh schema (history independence is C10)',
@@ -142,7 +143,20 @@ def point_ext(frame):
     return None
 
 
-POINTS = {'A': point_all, 'B': point_interface, 'C': point_build, 'E': point_ext}
+LINE_FUNCS = {'ElementSelector.cached_selector', 'SchemaCache.__call__', 'schema_cached_property.__get__',
+              'XsdSimpleType.text_is_valid', 'XsdSimpleType.text_decode', 'NamespaceMapper.set_xmlns_context'}
+
+
+def point_lines(frame):
+    """Layer L: the interface, plus EVERY SOURCE LINE of the small functions that read-modify-write process-wide
+    or per-schema caches (check-then-act windows without a call in between)."""
+    lab = _label(frame.f_code)
+    if lab in LINE_FUNCS:
+        return 'LINE:' + lab
+    return lab if lab in INTERFACE else None
+
+
+POINTS = {'A': point_all, 'B': point_interface, 'C': point_build, 'E': point_ext, 'L': point_lines}
 
 
 # --- harnesses -----------------------------------------------------------------------------------------
@@ -221,6 +235,37 @@ def lazy_harness(version):
     return make
 
 
+def paths_harness(version):
+    """Thread 0 validates a document part selected by a path while thread 1 makes path-restricted calls with fresh
+    paths; the process-wide selector cache is pre-filled so that thread 1's calls push it over its 100-entry limit
+    (the cache is emptied when it exceeds 100 entries)."""
+    doc = P.DOCS['four']
+    paths = ['/root/item[%d]' % i for i in (1, 2, 3)]
+
+    def make():
+        from xmlschema.xpath import selectors
+        selectors._selectors_cache.clear()
+        for i in range(99):
+            selectors.ElementSelector.cached_selector('/filler%d' % i)
+        schema = _fresh(version)
+        exp0 = [P.norm_errors(_fresh(version).iter_errors(doc, path='/root/item'))]
+        selectors._selectors_cache.pop(('/root/item', selectors.ElementSelector), None)
+        for k in [k for k in selectors._selectors_cache if k[0].startswith('/root/item')]:
+            del selectors._selectors_cache[k]
+        exp1 = ['done']
+        ctx = {'schema': schema, 'expected': [exp0, exp1]}
+
+        def body0():
+            return [P.norm_errors(schema.iter_errors(doc, path='/root/item'))]
+
+        def body1():
+            for p in paths:
+                schema.is_valid(doc, path=p)
+            return ['done']
+        return [body0, body1], ctx
+    return make
+
+
 def check_results(x, ctx):
     probs = []
     unp = ctx.get('unpatch')
@@ -255,6 +300,7 @@ def harnesses(tier):
         'H5-decode-encode': lambda v: events_harness(v, [[('decode', 'wild-fixed')], [('encode', 'plain')]]),
         'H6-lazy-shared': lazy_harness,
         'H8-assertion-facets': lambda v: events_harness('1.1', [[('iter_errors', 'assert-lo')], [('iter_errors', 'assert-hi')]]),
+        'H9-selector-cache': paths_harness,
     }
     if tier == 'thorough':
         H['H7-three-threads'] = lambda v: events_harness(v, [[('is_valid', 'ext-ok')], [('iter_errors', 'dupkey')], [('st-valid', '7')]])
@@ -272,7 +318,7 @@ def plan(tier):
         out += [('H3-scratch-context', v, lay, b) for v in both for lay, b in (('A', 1), ('B', 2))]
         out += [('H3b-validate-vs-scratch', '1.0', 'B', 2), ('H4-first-use', '1.0', 'B', 1), ('H5-decode-encode', '1.0', 'B', 1)]
         out += [('H6-lazy-shared', v, lay, b) for v in both for lay, b in (('A', 1), ('B', 2))]
-        out += [('H8-assertion-facets', '1.1', 'E', 1)]
+        out += [('H8-assertion-facets', '1.1', 'E', 1), ('H9-selector-cache', '1.0', 'L', 1), ('H3-scratch-context', '1.0', 'L', 1)]
         return out
     for name in harnesses(tier):
         for v in both:
@@ -282,6 +328,9 @@ def plan(tier):
                 continue
             if name == 'H7-three-threads':
                 out.append((name, v, 'B', 1))
+                continue
+            if name == 'H9-selector-cache':
+                out.append((name, v, 'L', 1))
                 continue
             out += [(name, v, 'A', 1), (name, v, 'B', 2)]
             if name == 'H1-build-race':
